@@ -149,13 +149,14 @@ Record tentry := { t_idx : N; t_peer : N; t_hs : bool }.
 Record state := {
   peers : N -> peer;
   table : list tentry;
-  nseq : N                (* initiations created by the device so far *)
+  nseq : N;               (* initiations created by the device so far *)
+  loaded : bool           (* device.IsUnderLoad() (forced by the VerifForceUnderLoad hook) *)
 }.
 
 Definition set_peer (st : state) (p : N) (P : peer) : state :=
-  {| peers := fun q => if q =? p then P else peers st q; table := table st; nseq := nseq st |}.
+  {| peers := fun q => if q =? p then P else peers st q; table := table st; nseq := nseq st; loaded := loaded st |}.
 Definition set_table (st : state) (t : list tentry) : state :=
-  {| peers := peers st; table := t; nseq := nseq st |}.
+  {| peers := peers st; table := t; nseq := nseq st; loaded := loaded st |}.
 
 Definition lookup (t : list tentry) (i : N) : option tentry := find (fun e => t_idx e =? i) t.
 Definition tdelete (t : list tentry) (i : N) : list tentry := filter (fun e => negb (t_idx e =? i)) t.
@@ -171,7 +172,8 @@ Definition tswap (t : list tentry) (i : N) : list tentry :=
 Inductive out :=
 | OInit (to p sender ts : N)                          (* initiation for peer p, MAC1 under p's key *)
 | OResp (to p sender receiver : N) (opens : bool)     (* response; opens = the builder of the initiation can complete *)
-| OTrans (to p receiver len : N).                     (* transport under p's newest session *)
+| OTrans (to p receiver len : N)                      (* transport under p's newest session *)
+| OCookie (to receiver : N).                          (* cookie reply (only under load, only after a valid MAC1) *)
 
 Definition rate := HandshakeInitationRate.
 
@@ -254,6 +256,11 @@ Definition recv (st : state) (now src oidx : N) (m : msg) : state * list out :=
   | None => (st, [])
   | Some k =>
       if negb (mac1_ok k m) then (st, []) else
+      (* if device.IsUnderLoad(): the messages of this slice never carry a valid
+         MAC2 (the harness never uses a cookie), so CheckMAC2 fails and
+         SendHandshakeCookie answers with a cookie reply for the sender index on
+         the wire; nothing else happens (C10 owns this path). *)
+      if loaded st then (st, [OCookie src (m_sender m)]) else
       match k with
       | KInit => consume_initiation st now src oidx m
       | KResp => consume_response st src m
@@ -289,7 +296,7 @@ Definition tun_packet (st : state) (now oidx p inner : N) : state * list out :=
       if now - last_sent P <? RekeyTimeout then (set_peer st p P1, []) else
       let seq := nseq st + 1 in
       let t1 := tadd_hs (tdelete (table st) (hs_local P)) oidx p in
-      ({| peers := peers (set_peer st p (with_initiation P1 now oidx seq)); table := t1; nseq := seq |},
+      ({| peers := peers (set_peer st p (with_initiation P1 now oidx seq)); table := t1; nseq := seq; loaded := loaded st |},
        [OInit (endpoint P) p oidx (stamp_val now)])
   end.
 
@@ -311,7 +318,8 @@ Inductive body :=
 | BMsg (src : N) (m : msg)         (* datagram from address src *)
 | BTun (p inner : N)               (* TUN packet routed to peer p, inner length *)
 | BShift (p d : N)                 (* VerifShiftHandshakeTimes *)
-| BRestart.                        (* device.Down(); device.Up() *)
+| BRestart                         (* device.Down(); device.Up() *)
+| BLoad (on : bool).               (* VerifForceUnderLoad(10 s) / VerifForceUnderLoad(0) *)
 
 Record event := { e_now : N; e_oidx : N; e_body : body }.
 
@@ -322,7 +330,8 @@ Definition step (st : state) (e : event) : state * list out :=
   | BShift p d => (if p_conf (peers st p) then set_peer st p (shift_peer (peers st p) d) else st, [])
   | BRestart =>
       ({| peers := fun q => if p_conf (peers st q) then restart_peer (peers st q) (e_now e) else peers st q;
-          table := []; nseq := nseq st |}, [])
+          table := []; nseq := nseq st; loaded := loaded st |}, [])
+  | BLoad on => ({| peers := peers st; table := table st; nseq := nseq st; loaded := on |}, [])
   end.
 
 (* Initial state: peers as configured through IpcSet, then Up at time now0. *)
@@ -345,4 +354,4 @@ Fixpoint init_peers (cfg : list (N * N * N)) (now0 : N) : N -> peer :=
   end.
 
 Definition init (cfg : list (N * N * N)) (now0 : N) : state :=
-  {| peers := init_peers cfg now0; table := []; nseq := 0 |}.
+  {| peers := init_peers cfg now0; table := []; nseq := 0; loaded := false |}.
